@@ -226,7 +226,7 @@ func c02R2(h H) {
 	// --- browse: archive members
 	if fn := h.fn("R2", brPkg, "Browse.ServeArchive"); fn != nil {
 		n := 0
-		for _, g := range withClosures(fn) {
+		for _, g := range withHelpers(fn, 3) {
 			allInstrs(g, func(in ssa.Instruction) {
 				c := callOf(in)
 				if c == nil || !c.IsInvoke() || c.Method.Name() != "Write" || !strings.Contains(c.Value.Type().String(), "archiver") {
@@ -397,6 +397,15 @@ func c02R3(h H) {
 			construct := sprintf("%s/redirect#%d", shortFunc(fn), k+1)
 			target := callOf(c).Args[2]
 			tc, ok := target.(*ssa.Call)
+			if !ok {
+				// the target may have travelled through a merge (a helper's result, a flag-and-value pair): take the
+				// value that is feasible at the redirect
+				if vs := valuesAt(fn, target, c); len(vs) == 1 {
+					if c2, isCall := vs[0].(*ssa.Call); isCall {
+						tc, ok, target = c2, true, vs[0]
+					}
+				}
+			}
 			if !ok || calleeName(&tc.Call) != "(*net/url.URL).String" {
 				r.Fail("R3", construct, c.Pos(), "redirect target is not the String() of a URL value", describe(target))
 				continue
